@@ -534,6 +534,14 @@ def gen_bases(rng, th):
         for _ in range(reps):
             sc = rng.choice([0, 0, 3, 10])
             out.append(('dyadic53', [[Fraction(rng.randrange(-(1 << 53) + 1, 1 << 53), 1 << (53 - sc)) for _ in range(n)] for _ in range(n)]))
+    # the same lattices at other scales (multiplication by a power of two is exact in binary64): reducedness is scale invariant,
+    # an absolute tolerance in the Lovasz or the size-reduction test is not
+    base = [M for t_, M in out if t_ in ('rebased', 'near-dependent', 'unit-test', 'uniform-100', 'knapsack') and len(M) <= 5]
+    rng.shuffle(base)
+    for M in base[:24 if not th else 160] + [[[1, 1, 1], [-1, 0, 2], [3, 5, 6]], [[201, 37], [1648, 297]]]:
+        k = rng.choice([20, 20, 40, 150, -60, -200])
+        sc_ = Fraction(1, 2 ** k) if k > 0 else Fraction(2 ** -k)
+        out.append(('scaled-2^%d' % -k, [[x * sc_ for x in r] for r in M]))
     return out
 
 def cyclotomic(n):
